@@ -229,8 +229,18 @@ def _extra_fixtures(fix):
         f.write('\n'.join(lines) + '\n')
 
 
+def _head():
+    import subprocess
+    try:
+        return subprocess.run(['git', '-C', core.REPO, 'rev-parse', 'HEAD'], stdout=subprocess.PIPE, stderr=subprocess.DEVNULL,
+                              timeout=30).stdout.decode().strip()
+    except Exception:
+        return ''
+
+
 def bounded_cli(ctx):
     thorough = ctx.tier == 'thorough'
+    head0 = _head()
     work = []     # (site, tool, args, seed, stdin)
     for ci, (site, tool, args) in enumerate(CASES):
         if site == 'none':
@@ -262,6 +272,10 @@ def bounded_cli(ctx):
             jobs.extend(js)
             index.extend([wi] * len(js))
         res = x_cli.run_many(jobs)
+        moved = _head() != head0
+        if moved:
+            ctx.notes.append('C07: the repository HEAD changed while the processes were running; differences of the version string '
+                             'between runs are not judged in this run.')
         per = collections.defaultdict(list)
         for wi, r in zip(index, res):
             per[wi].append(r)
@@ -275,6 +289,8 @@ def bounded_cli(ctx):
                                   'err': per[wi][0]['err'].strip().splitlines()[-1:]})
                 continue
             for key, text in bad:
+                if moved and key.startswith('header:generator'):
+                    continue
                 ctx.violation(key, '{} {}{} :: {}'.format(tool, '' if seed is None else '--seed {} '.format(seed), ' '.join(args), text),
                               {'fn': 'checks.C07:replay_cli', 'args': dict(site=site, tool=tool, args=args, seed=seed, key=key,
                                                                          stdin=(bigtxt if stdin == 'BIG' else stdin))})
